@@ -71,8 +71,12 @@ for _cls, _f in (('And', lambda xs: __import__('functools').reduce(lambda x, y: 
                  ('Xor', lambda xs: __import__('functools').reduce(lambda x, y: x ^ y, xs)),
                  ('Nor', lambda xs: ~__import__('functools').reduce(lambda x, y: x | y, xs))):
     spec(_cls, 'C08',
-         (lambda tier, _cls=_cls: prod(w=[1, 2], n=[2, 3, 4, 5] if _cls == 'Xor' else [1, 2, 3, 4, 5]) if tier == 'quick' else
-          prod(w=[1, 2, 3], n=[2, 3, 4, 5, 6] if _cls == 'Xor' else [1, 2, 3, 4, 5, 6])),
+         (lambda tier, _cls=_cls: itertools.chain(
+             prod(w=[1, 2], n=[2, 3, 4, 5] if _cls == 'Xor' else [1, 2, 3, 4, 5]) if tier == 'quick' else
+             prod(w=[1, 2, 3], n=[2, 3, 4, 5, 6] if _cls == 'Xor' else [1, 2, 3, 4, 5, 6]),
+             # larger arities (every count up to 16, then some with many 1-bits in binary), 1 bit wide: exhaustive up to 12 (14) inputs,
+             # walking ones / zeros and random vectors beyond
+             prod(w=[1], n=[7, 8, 9, 10, 11, 12, 13, 14, 15, 16] if tier == 'quick' else list(range(7, 34))))),
          nary(_cls), (lambda v, p, _f=_f: dict(r=_f([v['in%d' % i] for i in range(p['n'])]) & m(p['w']))))
 
 for _cls, _f in (('Nand2', lambda a, b: ~(a & b)), ('Nor2', lambda a, b: ~(a | b)), ('Xor2', lambda a, b: a ^ b)):
@@ -118,7 +122,7 @@ def b_demux(D, p):
     return dict(a=a, sel=sel), {'r%d' % i: w for i, w in enumerate(rs)}
 
 
-spec('Demux', 'C08', lambda tier: [c for c in prod(sw=[1, 2, 3], w=[1, 2]) if c['sw'] < 3 or c['w'] == 1], b_demux,
+spec('Demux', 'C08', lambda tier: [c for c in prod(sw=[1, 2, 3, 4, 5] if tier == 'quick' else [1, 2, 3, 4, 5, 6, 7], w=[1, 2]) if c['sw'] < 3 or c['w'] == 1], b_demux,
      lambda v, p: {'r%d' % i: (v['a'] if v['sel'] == i else 0) for i in range(1 << p['sw'])})
 
 
@@ -129,14 +133,14 @@ def b_decoder(D, p):
     return dict(a=a), {'b%d' % i: w for i, w in enumerate(bs)}
 
 
-spec('Decoder', 'C08', lambda tier: [dict(aw=aw, n=1 << aw) for aw in ([1, 2, 3] if tier == 'quick' else [1, 2, 3, 4])], b_decoder,
+spec('Decoder', 'C08', lambda tier: [dict(aw=aw, n=1 << aw) for aw in ([1, 2, 3, 4, 5, 6] if tier == 'quick' else [1, 2, 3, 4, 5, 6, 7, 8])], b_decoder,
      lambda v, p: {'b%d' % i: int(v['a'] == i) for i in range(p['n'])})
 
 
 def b_select(cls):
     def build(D, p):
         sels = D.wire_list('s', [1] * p['n'])
-        ins = D.wire_list('i', [p['w']] * p['n'])
+        ins = D.wire_list('i', p['ws'] if 'ws' in p else [p['w']] * p['n'])
         r = D.wire('r', p['w'])
         D.make(cls, 'dut', sels, ins, r)
         d = {'s%d' % i: w for i, w in enumerate(sels)}
@@ -153,8 +157,14 @@ def ref_select(v, p):
     return dict(r=r)
 
 
-spec('Select', 'C08', lambda tier: prod(n=[1, 2, 3], w=[1, 2]), b_select('Select'), ref_select)
-spec('OneHotMux', 'C08', lambda tier: prod(n=[1, 2, 3], w=[1, 2]), b_select('OneHotMux'), ref_select)
+def cfg_select(tier):
+    # equal widths, then inputs of different widths (narrower first, narrower last, in the middle) into a result as wide as the widest
+    mixed = [[1, 2], [2, 1], [1, 3], [2, 3, 1], [1, 2, 3], [3, 1, 2]] + ([[2, 4], [1, 4, 2], [1, 2, 3, 4]] if tier == 'thorough' else [])
+    return itertools.chain(prod(n=[1, 2, 3, 4], w=[1, 2]), [dict(n=len(ws), ws=ws, w=max(ws)) for ws in mixed])
+
+
+spec('Select', 'C08', cfg_select, b_select('Select'), ref_select)
+spec('OneHotMux', 'C08', cfg_select, b_select('OneHotMux'), ref_select)
 
 
 def b_onehotdemux(D, p):
